@@ -72,6 +72,10 @@ def gen_case(seed: int, tier: str, index: int) -> Dict[str, Any]:
     cfg = {"profile": profile, "net": {"lat_min": 0.001, "lat_max": 0.003}, "loop": loop_cfg, "tables": tables, "duration": dur,
            "snapshot": snaps[rng.randrange(len(snaps))].split("/")[-1],
            "suspend_p": rng.choice([0.0, 0.2, 0.5]), "suspend_max": rng.choice([0.2, 0.6])}
+    if index % 16 == 15:
+        # two clients, each with its own spa, in one process
+        cfg.update(two_clients=True, snapshot2=snaps[rng.randrange(len(snaps))].split("/")[-1], duration=rng.choice([10, 30]), suspend_p=0.0)
+        plan = []
     return {"property": PROP, "world": "A", "seed": seed, "cfg": cfg, "plan": plan}
 
 
@@ -166,9 +170,60 @@ def make_junk(op: Dict[str, Any], client_id: bytes) -> Tuple[bytes, Dict[str, An
     raise HarnessError("unknown junk kind " + kind)
 
 
+async def two_clients(world: WorldA) -> None:
+    """Two client-and-spa pairs in one process (a home with two spas): every datagram of a connection is consumed by tasks of that
+    connection's own manager, both managers connect and stay connected, and each client mirrors its own spa."""
+    cfg = world.cfg
+    res = world.result
+    world.net.healed = True
+    world.loop.stalls_on = False
+    a = System(world, exclusive=True)
+    b = System(world, spa_ip="10.0.0.11", client_uuid="verif-0002", exclusive=True, snapshot=cfg.get("snapshot2"))
+    async with a.man:
+        async with b.man:
+            for sysm, name in ((a, "first"), (b, "second")):
+                try:
+                    await sysm.wait_connected(cap=150)
+                except HarnessError:
+                    world.violate(PROP, "wrong-consumer", f"two clients in one process: the {name} manager did not connect to its spa on a healthy network "
+                                  f"(state {sysm.man.spa_state}); the two connections interfere", sig="two-clients:no-connection")
+            for k in range(6):
+                for sysm in (a, b):
+                    spa = sysm.spa
+                    if spa is not None and spa.is_connected:
+                        try:
+                            await (spa.async_get_watercare() if k % 2 else spa.async_press(21 + k % 2))
+                        except Exception:
+                            res.probe("op_raised")
+                await asyncio.sleep(1.0)
+            await asyncio.sleep(cfg.get("duration", 20))
+            for sysm, other, name in ((a, b, "first"), (b, a, "second")):
+                mine = set(getattr(sysm.man, "_tasks", [])) | sysm.all_tasks
+                for label, q in sysm.queues.items():
+                    for it in q.items:
+                        for p in it["pops"]:
+                            t = p.get("by_obj")
+                            if t is not None and t not in mine and not str(p["by"]).startswith("HARNESS"):
+                                world.violate(PROP, "wrong-consumer", f"two clients in one process: a datagram ({_verb(it['item'][0])}) received on the {name} "
+                                              f"client's connection {label} was taken by {p['by']}, a task of the other client", sig="two-clients:cross-consumption")
+                if sysm.man.facade is None or sysm.spa is None:
+                    world.violate(PROP, "wrong-consumer", f"two clients in one process: the {name} client lost its connection on a healthy network",
+                                  sig="two-clients:connection-lost")
+                elif sysm.spa.struct.status_block != sysm.peer.block:
+                    world.violate(PROP, "misaddressed-effect", f"two clients in one process: the {name} client's block differs from its own spa's",
+                                  sig="two-clients:block-mismatch")
+    res.probe("two_clients_in_one_process")
+    res.nontrivial = True
+    res.faultfree = True
+    res.shape = "two-clients"
+    res.sample = {"two_clients": True}
+
+
 async def scenario(world: WorldA) -> None:
     from geckolib.driver import GeckoStatusBlockProtocolHandler
 
+    if world.cfg.get("two_clients"):
+        return await two_clients(world)
     cfg = world.cfg
     res = world.result
     world.net.healed = True
@@ -183,6 +238,12 @@ async def scenario(world: WorldA) -> None:
             await sysm.wait_connected()
         except HarnessError:
             # the healthy-network setup failed: if the queue history already shows why, that is the verdict
+            qs = [getattr(p, "queue", None) for p in sysm.protocols.values()]
+            qs = [q for q in qs if q is not None]
+            if len({id(q) for q in qs}) < len(qs):
+                world.violate(PROP, "wrong-consumer", "the manager cannot connect on a healthy network and two of its endpoints (discovery / connection) "
+                              "hold the very same receive-queue object: a datagram received on one endpoint is offered to the other one's consumers",
+                              sig="shared-receive-queue")
             world.cfg["_snapshot_ids"] = set()
             check(world, sysm, labels, events, 10 ** 9)
             raise
@@ -476,7 +537,7 @@ ASSUMPTIONS = [
     "who may take a datagram is judged from an independent verb table in the harness, not from can_handle",
     "packets whose framing is ambiguous (tag text inside identifiers/payload) are only held to exactly-once and residence",
 ]
-PROBES = ["discarded_unhandled", "misaddressed_dropped", "unknown_verb_discarded"]
+PROBES = ["two_clients_in_one_process", "discarded_unhandled", "misaddressed_dropped", "unknown_verb_discarded"]
 N_QUICK = 2400
 
 
